@@ -1,6 +1,6 @@
 /-
   A lexer for the subset of the DOT language that `dot_format()` emits (https://graphviz.org/doc/info/lang.html):
-  identifiers / numerals, double-quoted strings (the only escape is `\"`), the punctuation `{ } [ ] ; , =` and `->`;
+  identifiers / unsigned numerals, double-quoted strings (the only escape is `\"`), the punctuation `{ } [ ] ; , =` and `->`;
   white space separates tokens.  Written from the grammar, independently of `render`.  Core Lean only.
 -/
 import AJ.Model.Dot
@@ -24,8 +24,35 @@ def spanId : List Char → List Char × List Char
   | [] => ([], [])
   | c :: cs => if isIdChar c then let p := spanId cs; (c :: p.1, p.2) else ([], c :: cs)
 
-/-- tokens of the input, or `none` if it is not lexically valid (unterminated string, stray character);
-    one unit of fuel per character is enough -/
+/-- first character of an identifier: a letter or the underscore (ASCII only, stricter than DOT) -/
+def isIdentStart (c : Char) : Bool := c.isAlpha || c == '_'
+
+/-- character of an identifier: a letter, a digit or the underscore (ASCII only, stricter than DOT) -/
+def isIdentChar (c : Char) : Bool := c.isAlphanum || c == '_'
+
+/-- DOT: "Any string of alphabetic (`[a-zA-Z\200-\377]`) characters, underscores (`'_'`) or digits (`[0-9]`),
+    not beginning with a digit" -/
+def isIdentRun : List Char → Bool
+  | [] => false
+  | c :: cs => isIdentStart c && cs.all isIdentChar
+
+/-- DOT: "a numeral `[-]?(.[0-9]+ | [0-9]+(.[0-9]*)? )`", without the sign (the lexer knows `-` only in `->`):
+    a dot followed by one or more digits, or one or more digits optionally followed by a dot and digits -/
+def isNumeralRun : List Char → Bool
+  | [] => false
+  | c :: cs =>
+    if c = '.' then !cs.isEmpty && cs.all Char.isDigit
+    else c.isDigit &&
+      (match cs.dropWhile Char.isDigit with
+       | [] => true
+       | d :: fs => d == '.' && fs.all Char.isDigit)
+
+/-- a maximal run of ID characters is one unquoted ID exactly when it is an identifier or a numeral
+    (graphviz splits `1a` with a warning and rejects `a.b`, `1.2.3`; here they are all lexical errors) -/
+def validIdRun (xs : List Char) : Bool := isIdentRun xs || isNumeralRun xs
+
+/-- tokens of the input, or `none` if it is not lexically valid (unterminated string, stray character,
+    a run of ID characters that is neither an identifier nor a numeral); one unit of fuel per character is enough -/
 def lexDot : Nat → List Char → Option (List Tok)
   | _, [] => some []
   | 0, _ :: _ => none
@@ -48,10 +75,18 @@ def lexDot : Nat → List Char → Option (List Tok)
       | _ => none
     else if isIdChar c then
       let p := spanId (c :: cs)
-      (lexDot fuel p.2).map (Tok.id p.1 :: ·)
+      if validIdRun p.1 then (lexDot fuel p.2).map (Tok.id p.1 :: ·) else none
     else none
 
 /-- lexing of a whole string -/
 def lexString (s : String) : Option (List Tok) := lexDot s.toList.length s.toList
+
+example : lexString "a.b" = none := by decide
+example : lexString "1a" = none := by decide
+example : lexString "1.2.3" = none := by decide
+example : lexString "1..2" = none := by decide
+example : lexString "." = none := by decide
+example : lexString "1.5 .5 7. x_1 _y" =
+    some [Tok.id "1.5".toList, Tok.id ".5".toList, Tok.id "7.".toList, Tok.id "x_1".toList, Tok.id "_y".toList] := by decide
 
 end AJ
